@@ -13,6 +13,7 @@ class EnumIndex:
     def __init__(self, src_dir, features):
         self.src_dir, self.features = src_dir, set(features)
         self.by_name = {}      # enum name -> list of (module path, {variant: disc}, [variants in order])
+        self.aliases = {}      # non-generic `type X = Y;` aliases
         for d, _, files in os.walk(src_dir):
             for f in files:
                 if f.endswith('.rs'):
@@ -28,6 +29,8 @@ class EnumIndex:
             src = _strip_comments(open(path).read())
         except OSError:
             return
+        for m in re.finditer(r'^\s*(?:pub(?:\([^)]*\))?\s+)?type\s+(\w+)\s*=\s*([\w:]+)\s*;', src, re.M):
+            self.aliases.setdefault(m.group(1), m.group(2).split('::')[-1])
         for m in re.finditer(r'\benum\s+(\w+)\s*(?:<[^{]*>)?\s*(?:where[^{]*)?\{', src):
             name = m.group(1)
             i = m.end()
